@@ -260,7 +260,8 @@ def _tool_cases(draw):
                 gs.append(draw(trees.wf_trees(spec, max_nodes=4, consts=TOOL_CONSTS, aligned=False)))
         sources.append(gs)
     return {'k': 'tool', 'sources': sources, 'stdin': stdin, 'model': spec,
-            'extra': draw(st.sampled_from([[], [], ['--indent', 'no'], ['--compact'], ['--canonicalize-roles'], ['--triples'], ['--reify-attributes']])),
+            'extra': draw(st.sampled_from([[], [], ['--indent', 'no'], ['--compact'], ['--canonicalize-roles'], ['--triples'], ['--reify-attributes'],
+                                           ['--reconfigure', 'canonical'], ['--rearrange', 'alphanumeric'], ['--reconfigure', 'original', '--compact']])),
             'subprocess': draw(st.integers(0, 49)) == 0,
             'premeta': draw(st.sampled_from([None, None, None, {'error-1': 'stale remark'}, {'id': '3', 'error-2': '(x :y z) invalid role'}]))}
 
